@@ -6,6 +6,7 @@ import (
 	"fmt"
 	"go/types"
 	"net"
+	"net/netip"
 	"strconv"
 	"strings"
 )
@@ -41,6 +42,13 @@ func (e *Exec) parseConcreteAddrText(s string, hostPort bool) *StrV {
 		}
 		ipt := e.parseConcreteAddrText(h, false)
 		if ipt == nil {
+			hh := h
+			if i := strings.IndexByte(h, '%'); i >= 0 {
+				hh = h[:i]
+			}
+			if net.ParseIP(hh) != nil {
+				return nil // an IP literal in a non-canonical spelling: not a host name
+			}
 			return &StrV{Kind: SHostPort, Host: concStr(h), Port: tc.Const(16, pv)}
 		}
 		return &StrV{Kind: SHostPort, IP: ipt.IP, Zone: ipt.Zone, Port: tc.Const(16, pv)}
@@ -62,6 +70,14 @@ func (e *Exec) parseConcreteAddrText(s string, hostPort bool) *StrV {
 		ts[i] = tc.Const(8, uint64(b))
 	}
 	return &StrV{Kind: SIPText, IP: ts, Zone: zone}
+}
+
+func (e *Exec) constTerms(b []byte) []*Term {
+	ts := make([]*Term, len(b))
+	for i, x := range b {
+		ts[i] = e.tc.Const(8, uint64(x))
+	}
+	return ts
 }
 
 func (e *Exec) errValue(msg string) IfaceV {
@@ -176,9 +192,12 @@ func (e *Exec) normAddrStr(s *StrV) *StrV {
 }
 
 // netipFromIP builds a netip.Addr for the *textual rendering* of ip (so a mapped 16-byte IP is v4).
-func (e *Exec) netipFromIP(ip []*Term, zone string) Value {
+func (e *Exec) netipFromIP(ip []*Term, zone string) Value { return e.netipFromIPx(ip, zone, false) }
+
+// exact: the bytes are the parsed address itself (no text rendering in between)
+func (e *Exec) netipFromIPx(ip []*Term, zone string, exact bool) Value {
 	tc := e.tc
-	if len(ip) == 16 && zone == "" {
+	if len(ip) == 16 && zone == "" && !exact {
 		if e.branch(e.isMapped(ip), "netip-mapped") {
 			ip = ip[12:]
 		}
@@ -296,6 +315,14 @@ func registerNetText(p *Program) {
 		s := a[0].(*StrV)
 		zeroAddr := e.zero(e.prog.namedType("net/netip", "Addr"))
 		if s.Kind == SConc {
+			// concrete text: the real parser decides (non-canonical spellings included)
+			na, err := netip.ParseAddr(s.S)
+			if err != nil {
+				return TupleV{zeroAddr, e.errValue(err.Error())}
+			}
+			return TupleV{e.netipFromIPx(e.constTerms(na.AsSlice()), na.Zone(), true), IfaceV{}}
+		}
+		if s.Kind == SConc {
 			if st := e.parseConcreteAddrText(s.S, false); st != nil {
 				s = st
 			} else {
@@ -310,6 +337,16 @@ func registerNetText(p *Program) {
 	p.reg("net/netip.ParseAddrPort", func(e *Exec, g *G, a []Value) Value {
 		s := a[0].(*StrV)
 		apT := e.prog.namedType("net/netip", "AddrPort")
+		if s.Kind == SConc {
+			nap, err := netip.ParseAddrPort(s.S)
+			if err != nil {
+				return TupleV{e.zero(apT), e.errValue(err.Error())}
+			}
+			ap := e.zero(apT).(*StructV)
+			ap.F[0] = e.netipFromIPx(e.constTerms(nap.Addr().AsSlice()), nap.Addr().Zone(), true)
+			ap.F[1] = e.tc.Const(16, uint64(nap.Port()))
+			return TupleV{ap, IfaceV{}}
+		}
 		if s.Kind == SConc {
 			if st := e.parseConcreteAddrText(s.S, true); st != nil {
 				s = st
@@ -416,6 +453,28 @@ func (e *Exec) resolveAddr(s *StrV, typ string) Value {
 	if s.Kind == SConc {
 		if st := e.parseConcreteAddrText(s.S, true); st != nil {
 			s = st
+		} else if h, pt, err := net.SplitHostPort(s.S); err == nil {
+			// non-canonical spellings of a literal address (leading zeros in the port, ...)
+			zone := ""
+			hh := h
+			if i := strings.IndexByte(h, '%'); i >= 0 {
+				hh, zone = h[:i], h[i+1:]
+			}
+			pn, perr := strconv.ParseUint(pt, 10, 16)
+			if ip := net.ParseIP(hh); ip != nil && perr == nil {
+				if ip4 := ip.To4(); ip4 != nil {
+					ip = ip4
+				}
+				ts := make([]*Term, len(ip))
+				for i, b := range ip {
+					ts[i] = tc.Const(8, uint64(b))
+				}
+				s = &StrV{Kind: SHostPort, IP: ts, Zone: zone, Port: tc.Const(16, pn)}
+			} else if perr == nil {
+				s = &StrV{Kind: SHostPort, Host: concStr(h), Port: tc.Const(16, pn)}
+			} else {
+				return TupleV{PtrV{}, e.addrErrValue("unknown port")}
+			}
 		} else {
 			return TupleV{PtrV{}, e.addrErrValue("unresolvable address")}
 		}
